@@ -622,9 +622,12 @@ def _install() -> None:
         dt = ch.choice(["int64", "uint32", "uint8"])
         stop = numpy.array([ch.between(1, 4) for _ in range(d)], dtype=dt)
         start = numpy.array([ch.below(int(s) + 1) for s in stop], dtype=dt)
+        if dt == "int64" and ch.chance(0.4):
+            start = numpy.array([-ch.between(1, 2) if ch.chance(0.6) else int(v) for v in start], dtype=dt)  # negative: no lower bound
         return {"args": [A(start, dt), A(stop, dt)], "kwargs": {"graded": ch.chance(0.5), "reverse": ch.chance(0.5), "cross_truncation": ch.choice([0.5, 1.0, 2.0, 4.0])}}
 
     _reg("glexindex", g_glexindex, lambda a, k: n.glexindex(a[0], a[1], **k), "utils", weight=1)
+    _reg("bindex", g_glexindex, lambda a, k: n.bindex(a[0], a[1], cross_truncation=k.get("cross_truncation", 1.0)), "utils", weight=1)
     _reg("variable", lambda ch: {"args": [ch.between(1, 3)], "kwargs": {}}, lambda a, k: n.variable(a[0]), "construct", weight=1)
     _reg("symbols", lambda ch: {"args": [ch.choice(["q0", "q1 q3", "q:3", "q2,q10"])], "kwargs": {}}, lambda a, k: n.symbols(a[0]), "construct", weight=1)
 
@@ -708,7 +711,7 @@ def build_args(desc: dict) -> tuple:
     args = [model.build_value(v) for v in desc["args"]]
     kwargs = {k: model.build_value(v) for k, v in desc.get("kwargs", {}).items()}
     LAST_PARENTS.clear()
-    if desc.get("view") in ("T", "rev"):
+    if desc.get("view") in ("T", "rev") and not desc.get("outputs"):  # (a declared output that is a view would legitimately change its parent)
         # polynomial arguments arrive as non-contiguous views of a parent the caller still holds
         import numpoly
 
